@@ -8,7 +8,7 @@ from ..core import Sub
 from .common import Viol
 
 FLAVOURS = ("san",)
-RULE = ("(a) every TZif file under /usr/share/zoneinfo (quick: a seeded sample of 60 incl. the two "
+RULE = ("(a) every TZif file under /usr/share/zoneinfo (quick: a seeded sample of 150 incl. the two "
         "zones with > 255 transitions; thorough: all) and (b) synthetic files from the own TZif "
         "writer (version 1/2/3, 0..1200 transitions incl. 254..258, offsets anywhere in +-16 h, "
         "runs of equal consecutive types, v1 block disagreeing with the 64-bit block, transitions "
@@ -72,7 +72,7 @@ def plan(ctx):
     return j
 
 
-def _check_zone(ctx, sub, V, path, z, rnd, label, per_zone):
+def _check_zone(ctx, sub, V, path, z, rnd, label, per_zone, syn=None):
     ts = instants(z, rnd, 30)
     if len(ts) > per_zone:
         near = [t for t in ts if any(abs(t - x) <= 1 for x in z.trans[-3:] + z.trans[:3] + z.trans[250:262])]
@@ -103,7 +103,7 @@ def _check_zone(ctx, sub, V, path, z, rnd, label, per_zone):
                     tag += ":idx>=255"
                 if off % 900:
                     tag += ":odd-offset"
-                V.add(tag, {"zone": path, "t": t, "in": i, "exp": x, "kind": "local"}, expected=x, actual=alone,
+                V.add(tag, {"zone": path, "t": t, "in": i, "exp": x, "kind": "local", "syn": syn}, expected=x, actual=alone,
                       weight=abs(t))
             else:
                 sub.cls("history-dependent mismatch (C13)")
@@ -112,6 +112,11 @@ def _check_zone(ctx, sub, V, path, z, rnd, label, per_zone):
     for t in rnd.sample(ts, min(len(ts), 60)):
         l = t + z.offset_at(t)
         pre = [u for u in (l - o for o in set(z.offs)) if z.offset_at(u) is not None and u + z.offset_at(u) == l]
+        if z.trans and l - max(z.offs) < z.trans[0]:
+            # some offset of the file would place a pre-image before the first listed transition,
+            # where the statement says nothing about the offset in force: not asked
+            sub.cls("utc: candidate pre-image before the table (skipped)")
+            continue
         if pre:
             loc.append((l, sorted(set(pre))))
     for l, pre in loc:
@@ -121,7 +126,7 @@ def _check_zone(ctx, sub, V, path, z, rnd, label, per_zone):
         sub.evaluations += 1
         if got not in [fmt_t(u) for u in pre]:
             V.add("%s:utc%s" % (label, ":ambiguous" if len(pre) > 1 else ""),
-                  {"zone": path, "l": l, "in": i, "pre": pre, "kind": "utc"},
+                  {"zone": path, "l": l, "in": i, "pre": pre, "kind": "utc", "syn": syn},
                   expected=[fmt_t(u) for u in pre], actual=got, weight=abs(l))
 
 
@@ -132,7 +137,7 @@ def real(ctx, shard, nshards):
     files = all_zone_files()
     if not ctx.thorough:
         r0 = random.Random(ctx.sub_seed("c12files"))
-        pick = r0.sample(files, 58)
+        pick = r0.sample(files, 148)
         pick += [p for p in files if p.endswith(("Asia/Gaza", "Asia/Hebron"))]
         files = sorted(set(pick))
     for p in files[shard::nshards]:
@@ -196,6 +201,11 @@ def gen_table(rnd):
     return trans, tidx, offs, version, rnd.random() < 0.3
 
 
+def syn_file(tseed):
+    trans, tidx, offs, version, garbage = gen_table(random.Random(tseed))
+    return tzif.write(trans, tidx, offs, version, v1_garbage=garbage), version
+
+
 def synthetic(ctx, shard, nshards):
     sub = Sub("c12.synthetic")
     V = Viol(sub, "C12")
@@ -203,15 +213,17 @@ def synthetic(ctx, shard, nshards):
     d = os.path.join(ctx.build.root, "tmp-c12-%d" % shard)
     os.makedirs(d, exist_ok=True)
     try:
-        for it in range(30 if not ctx.thorough else 400):
-            trans, tidx, offs, version, garbage = gen_table(rnd)
-            data = tzif.write(trans, tidx, offs, version, v1_garbage=garbage)
+        for it in range(100 if not ctx.thorough else 600):
+            # the table has its own generator, so that a replay can rebuild the file from tseed
+            tseed = ctx.sub_seed("c12tab", shard, it)
+            data, version = syn_file(tseed)
             p = os.path.join(d, "z%d" % it)
             with open(p, "wb") as fh:
                 fh.write(data)
             z = tzif.parse(data)
+            trans = z.trans
             label = "syn:v%d" % version
-            _check_zone(ctx, sub, V, p, z, rnd, label, 80)
+            _check_zone(ctx, sub, V, p, z, rnd, label, 80, syn=tseed)
             sub.cls("ntr=%d" % len(trans))
     finally:
         import shutil
@@ -222,8 +234,24 @@ def synthetic(ctx, shard, nshards):
 
 def replay(ctx, subname, case):
     k = case["kind"]
+    tmp = None
+    if case.get("syn") is not None:
+        import tempfile
+        data, _ = syn_file(case["syn"])
+        fd, tmp = tempfile.mkstemp(prefix="c12-replay-", dir=ctx.build.root)
+        with os.fdopen(fd, "wb") as fh:
+            fh.write(data)
+        case = dict(case, zone=tmp)
+    try:
+        return _replay(ctx, k, case)
+    finally:
+        if tmp:
+            os.unlink(tmp)
+
+
+def _replay(ctx, k, case):
     if not os.path.exists(case["zone"]):
-        return {"detail": "zone file of the case no longer exists (synthetic); re-run the check"}
+        return {"detail": "zone file of the case no longer exists; re-run the check"}
     if k == "local":
         r = run_args(ctx.build, "dconv", ["--zone", case["zone"], "-f", "%FT%T", case["in"]])
         got = (r.lines() or [""])[0]
